@@ -14,6 +14,7 @@ import TshVerif.Model.StdStrings
 import TshVerif.Sem.Src
 import TshVerif.Sem2.Src
 import TshVerif.Sem2.Bash
+import TshVerif.Sem2.Cover
 
 open Tsh
 
@@ -87,6 +88,20 @@ def parseArgs (args : List String) : Option (Parser.FileSys × String) :=
     | some m, some e, some fl => some ({ files := fl, exeDir := bytesStr e }, bytesStr m)
     | _, _, _ => none
   | _ => none
+
+/-- COVER: source files -> does the call graph the parser collected cover every call of the code it keeps (the
+    hypothesis of `C09.unused_function_removal_is_safe`), and how many definitions does the removal drop.
+    answer `COVER <1|0> <statements before> <statements after>` -/
+def handleCover (args : List String) : String :=
+  match parseArgs args with
+  | none => "BADREQ"
+  | some (fs, m) =>
+    match Parser.parseRaw fs m, Parser.parse fs m with
+    | .ok raw _, .ok p _ =>
+      "COVER " ++ (if C09.graphCovers raw.usedFuncs raw.body then "1" else "0") ++ " " ++ toString raw.body.length ++ " " ++ toString p.body.length
+    | .error, _ => "ERR"
+    | .panic, _ => "PANIC"
+    | _, _ => "DIVERGE"
 
 /-- FULLBASH: the whole model pipeline, source files -> bash script -/
 def handleFullBash (args : List String) : String :=
@@ -260,6 +275,7 @@ def handle (line : String) : String :=
   if line.startsWith "STRS " then handleStr true ((line.drop 5).toString.splitOn " ") else
   if line.startsWith "FULLBATCH " then handleFullBatch ((line.drop 10).toString.splitOn " ") else
   if line.startsWith "CLI " then handleCli ((line.drop 4).toString.splitOn " ") else
+  if line.startsWith "COVER " then handleCover ((line.drop 6).toString.splitOn " ") else
   if line.startsWith "SEM " then handleSem ((line.drop 4).toString.splitOn " ") else
   if line.startsWith "FULLBASH " then handleFullBash ((line.drop 9).toString.splitOn " ") else
   if line.startsWith "PARSE " then handleParse ((line.drop 6).toString.splitOn " ") else
